@@ -303,6 +303,13 @@ def monitor_ping(chk, napps=1, nresp=1):
         if oc is None:
             D.failed = D.failed or ('inconclusive', 'exchange outcome undecided', None, st)
             continue
+        # whatever the outcome, the ping itself leaves the server-dictated poll interval as the exchange left it
+        left = st.extra.get(('spi_after_exchange', oms[0][1].out))
+        if left is not None:
+            import domaha
+            spi_path = smodels.sm_field_path(ex, ['context', 'state', 'server_dictated_poll_interval'])
+            D.require(st, domaha.opt_dur_eq(domaha.opt_dur_terms(ex, st, left), domaha.opt_dur_terms(ex, st, domaha.spi_of(ex, st, 'sm', spi_path))),
+                      'the ping leaves the poll interval dictated by its own exchange in place')
         if oc[0] == 'Err' or parsed is False:
             cover.add('fail-exchange' if oc[0] == 'Err' else 'fail-parse')
             D.require(st, z3.And(cnt1.t == sat_inc, opt_pct_eq(ex, st, lut1, lut0)), 'failed ping: count+1, last contact untouched')
